@@ -53,6 +53,14 @@ CLAIMED = {
             "rcpss/rsqrtss and powf/roundf by contract (not the silicon table / libm); rounding model (1+d) per float op, normal range; -0.0 and denormals read numerically "
             "in rcp_safe; distribution range over exact reals with machine words abstracted to their range; reproducibility shown for the first two draws",
             "symbolic execution of LLVM IR into SMT (z3 nonlinear real arithmetic with rounding-error variables, floating-point, bit-vectors), native replay"),
+    "C17": ("other",
+            "Index maps: SMT verdicts (z3) over ALL extents with total <= 2^63-1 - flatten/reshape and longIndex/coordsOf are mutually inverse, in range, "
+            "equal to their unbounded-integer values and monotone; iterator algebra. Adaptors: cbmc bounded model checking of for_each, ActualArray3D, "
+            "IndexShifted/SubBox/Accessor adaptors and getValueRange with symbolic contents, coordinates, regions and shifts.",
+            "DESIGN.md 3/C17",
+            "3-D sequence axes < 2^21; adaptors on a 2x2x3 volume, for_each regions inside 3x3x3; MultiSlice in the thorough tier only; Repeater::get and loadRAW/mmapRAW outside; "
+            "integers encoded with explicit mod 2^64 and Euclidean div/mod witnesses; lemma cuts proved in their own obligations",
+            "symbolic execution of LLVM IR into SMT (z3 nonlinear integer arithmetic) + bounded model checking (cbmc)"),
 }
 
 NOT_YET = "check not yet built (work in progress, see DESIGN.md section 7)"
